@@ -3,8 +3,8 @@ C04 — the role every atomic operation of the library plays in a synchronisatio
 order that role needs.  Hand-written (this is the part of the C04 argument that is modelled, not verified:
 that a site really plays this role follows from the protocol models C01/C06/C07/C14–C16 and from reading).
 The requirement of each role is justified by the machine-checked pattern theorems in Mem/*.lean:
-  pubRmw / obsLoad / pushCas* / takeRmw     — `RA.MP.mp_race_free` (publication + observation) and the
-                                              transfer rules of `RA.disciplined_race_free`
+  pubRmw / obsLoad / pushCasAcqFail (failure) — `RA.MP.mp_race_free` (publication + observation)
+  pubRmw / takeRmw / pushCas* (success)       — `RA.Treiber.treiber_race_free` (nodes through an RMW-only word)
   counterSub / acqFence / guardLoad         — `RA.RC.rc_race_free` (release on every decrement, acquire by
                                               whoever concludes it is the last holder)
   lockAcq / lockRel / lockBoth / pushTokenCas — `RA.Lock.lock_race_free` (critical sections ordered)
